@@ -24,7 +24,9 @@ RULE = ("KMeans::fit + predict on every 1-D data set of 2..5 rows over {0..4} (k
         "the seeding is unseeded) and on seeded random data sets of 2..120 (thorough: ..300) rows, 1..6 "
         "dimensions: lattice, integer blobs, few distinct rows replicated, continuous uniform / blobs, "
         "single precision; k in 2..8 with at least k distinct rows, max_iter in {1,2,3,5,10,30,100}, R "
-        "repeated fits per data set; offset families (small lattice rows + a common offset of ~1e9 / 2^30 per "
+        "repeated fits per data set; a predict batch-size ladder (one call on 63..1300 / ..4097 rows, inherent and api-trait "
+        "entry points); geometric-coordinate families (column 0 = 2^e over 66..110 binary orders of magnitude: BBD tree as "
+        "deep as the data are long) for fit and for the filtering step; offset families (small lattice rows + a common offset of ~1e9 / 2^30 per "
         "column, results shifted back); the data sets for which Lloyd.tla reaches an empty cluster, refitted "
         "2400 / 9000 times each; likewise the composition data sets (all rows with the same coordinate total) for "
         "which Lloyd.tla shows a member exchange at constant count and coordinate total, plus simplex layers, "
@@ -36,8 +38,8 @@ RULE = ("KMeans::fit + predict on every 1-D data set of 2..5 rows over {0..4} (k
         "cluster, or coincident centroids; distinct = distinct inputs (data, k, max_iter / data, centroids)")
 
 FIT_HITS = ("KMFit", "FitLattice", "FitCont", "FitF32", "Means", "PredictFx", "PredictExact", "PredictTie", "FitModel",
-            "FitOffset", "FitOffsetExact", "EmptyCluster", "ProbeEmpty", "FitSwap", "FitComp", "PredictBackend")
-BBD_HITS = ("Bbd", "BbdTie", "BbdCoincident", "BbdEmpty", "BbdRational", "BbdModel", "BbdOffset")
+            "FitOffset", "FitOffsetExact", "EmptyCluster", "ProbeEmpty", "FitSwap", "FitComp", "PredictBackend", "FitGeo", "PredictLadder", "TraitEntry")
+BBD_HITS = ("Bbd", "BbdTie", "BbdCoincident", "BbdEmpty", "BbdRational", "BbdModel", "BbdOffset", "BbdGeo")
 
 
 def key_of(e, clause):
@@ -51,12 +53,16 @@ def key_of(e, clause):
     if e["ev"] == "Bbd":
         return "Bbd %s: cls=%s n=%d d=%d k=%d cd=%s" % (clause, e.get("cls"), e["n"], e["d"], e["k"],
                                                          sorted(set(e["cd"])))
+    if e["ev"] == "BbdGeo":
+        return "BbdGeo %s: n=%d d=%d k=%d" % (clause, e["n"], e["d"], e["k"])
     return "unknown event"
 
 
 def input_digest(e):
     if e["ev"] == "KMFit":
         return vlib.digest(["F", e["X"], e["k"], e["maxIter"], e["prec"], e.get("off")])
+    if e["ev"] == "BbdGeo":
+        return vlib.digest(["G", e["X"], e["cg"]])
     return vlib.digest(["B", e["X"], e["cn"], e["cd"], e.get("off")])
 
 
